@@ -409,6 +409,68 @@ struct Engine {
                            "a fixed-line and a vectored request at the same boundary, handlers " + std::string((ctx & 1) ? "retic" : "reti") + " / " + ((ctx & 2) ? "retic" : "reti") + ": " + bad, w, 3, s, si);
             }
     }
+
+    // conditional returns: ret / reti / retic with each of the 16 conditions, executed inside a handler just entered (so the flags of the
+    // handler context decide): when the condition holds on the flags the instruction finds, it is the unconditional return; otherwise it
+    // is a no-op.  The reference for "unconditional" is the same interpreter's always-form.
+    void CheckConditionalReturns(size_t si) {
+        for (int kind = 0; kind < 3; ++kind)      // 0 ret, 1 reti, 2 retic
+            for (int ctx = 0; ctx < 2; ++ctx)     // entry with / without context store
+                for (int cond = 1; cond < 16; ++cond) {
+                    VState s = states[si];
+                    s.ie = 1;
+                    const int line = (cond + kind) % 3;
+                    for (int i = 0; i < 3; ++i)
+                        s.im[i] = i == line, s.ip[i] = i == line, s.ic[i] = (i == line) && ctx;
+                    s.imv = 0, s.ipv = 0;
+                    u32 vec = 0x0006 + 8 * line;
+                    s.pc = vec - 1;
+                    const u16 base_op = kind == 0 ? 0x4580 : kind == 1 ? 0x45C0 : 0x45D0;
+                    std::vector<u16> wc = {0x0000, (u16)(base_op | cond), 0x0000}, wa = {0x0000, base_op, 0x0000};
+                    VState o1, oc, oa;
+                    RunResult r1, rc, ra;
+                    if (!Exec(s, wc, 1, o1, r1) || !Exec(s, wc, 2, oc, rc) || !Exec(s, wa, 2, oa, ra))
+                        continue;
+                    digests.insert(Fnv(&oc, sizeof(oc), 277 + cond * 3 + kind));
+                    bool pass = CondPass(cond, o1);
+                    VState want = oa;
+                    if (!pass) {
+                        want = o1;
+                        want.pc = o1.pc + 1;
+                    }
+                    std::string d = Frame(want, oc, {});
+                    if (!d.empty()) {
+                        static const char* kn[] = {"ret", "reti", "retic"};
+                        Report(Fmt("conditional-return:%s:%s", kn[kind], pass ? "condition-true" : "condition-false"),
+                               Fmt("%s %s in a handler entered %s context store, condition %s on the flags it finds: register %s differs from %s", kn[kind], kCondNames[cond],
+                                   ctx ? "with" : "without", pass ? "true" : "false", d.c_str(), pass ? "the unconditional return" : "a no-op"),
+                               wc, 2, s, si);
+                    }
+                }
+    }
+    // pop of a product register after something else multiplied in between: the whole 33-bit product (sign extension bit included) is
+    // the saved one again.  Reference: the same program without the push/pop pair, then the product set back to its original value.
+    void CheckClobberedProduct(size_t si) {
+        for (int px = 0; px < 2; ++px)
+            for (u32 pv : {0x80000000u, 0x7FFFFFFFu, 0xFFFF0000u, 0x00012345u}) {
+                VState s = states[si];
+                s.p[px] = pv, s.pe[px] = (u16)(pv >> 31);
+                s.a[0] = 0x00007FFF0003ull; // squares of the two halves are positive: the clobber flips a negative product's extension bit
+                std::vector<u16> w = {(u16)(0xD78C | (px << 1)), 0xD790, (u16)(0xD496 | px), 0x0000}; // push p ; sqr_sqr_add3 a0,a0 ; pop p
+                std::vector<u16> wk = {0xD790, 0x0000};
+                VState out, ref;
+                RunResult rr, rk;
+                if (!Exec(s, w, 3, out, rr) || !Exec(s, wk, 1, ref, rk))
+                    continue;
+                digests.insert(Fnv(&out, sizeof(out), 377 + px));
+                ref.p[px] = s.p[px], ref.pe[px] = s.pe[px];
+                std::string d = Frame(ref, out, {"pc"});
+                if (!d.empty() || out.sp != s.sp)
+                    Report(Fmt("pair:push-p%d;multiply;pop-p%d", px, px),
+                           Fmt("push p%d ; sqr_sqr_add3 ; pop p%d with p%d=%X:%08X: %s", px, px, px, s.pe[px], s.p[px], d.empty() ? "sp not restored" : ("register " + d + " differs from the run without the push/pop pair").c_str()),
+                           w, 3, s, si);
+            }
+    }
 };
 
 inline int RunReplay(const std::string& r, Result& res) {
@@ -439,12 +501,17 @@ inline int RunReplay(const std::string& r, Result& res) {
     Engine e(res, 0);
     e.states = {st};
     e.state_names = {"replayed"};
-    if (key.rfind("pair:", 0) == 0) {
+    if (key.rfind("pair:push-p", 0) == 0 && key.find(";multiply;") != std::string::npos) {
+        e.CheckClobberedProduct(0);
+    } else if (key.rfind("pair:", 0) == 0) {
         for (auto& pr : e.BuildPairs())
             if (pr.words == words)
                 e.CheckPair(pr, 0);
     } else if (key.rfind("interrupt", 0) == 0) {
         e.CheckInterrupts(0);
+    } else if (key.rfind("conditional-return", 0) == 0) {
+        e.CheckConditionalReturns(0);
+
     } else {
         e.CheckCalls(0);
     }
@@ -477,6 +544,8 @@ inline void Run(const Args& args, Result& res) {
                         e.CheckPair(p, si);
                     e.CheckCalls(si);
                     e.CheckInterrupts(si);
+                    e.CheckConditionalReturns(si);
+                    e.CheckClobberedProduct(si);
                     ++local.states;
                 }
                 blk.evaluations = local.evaluations;
@@ -491,7 +560,8 @@ inline void Run(const Args& args, Result& res) {
                    "12 status/config words, 4 accumulator extensions, 4 whole-accumulator composites, p0/p1, r6, repc, x0, x1, y1, prpage; "
                    "cntx s;cntx r; banke f;banke f for all 64 flag sets; every bankr form twice) the real interpreter runs the program and the "
                    "round-trip identity is checked (sp, pc, 16-bit view of the operand, every other field unchanged); call forms x 16 conditions x "
-                   "2 word orders x 3 stack positions with ret/rets, call-vs-inline for 12 bodies; interrupt entry on each line followed by "
+                   "2 word orders x 3 stack positions with ret/rets, call-vs-inline for 12 bodies; ret/reti/retic x 15 conditions inside a just-entered handler "
+                   "(equal to the unconditional form when the condition holds on the handler's flags, a no-op otherwise); push p ; multiply ; pop p; interrupt entry on each line followed by "
                    "reti/retic compared with the uninterrupted run",
                    nstates, th == 2 ? " + every 2-field deviation of the reset base over the boundary domains" : "", npairs);
     res.bound = Fmt("%zu states x (%zu round-trip pairs + 6x(16+1+2+4+12) call programs + 12 interrupt programs)", nstates, npairs);
